@@ -219,6 +219,29 @@ def run_case(case, acc, want='both'):
                 if req is not None:
                     kw['version'] = req
                 evaluate(acc, ('one8', n, kw), content, [('byte', n, True)], kw, decode=True, exp_bytes=content.encode(), want=want)
+        # ECI headers of several byte parts in different encodings (12 bits each), and histories that alternate the encodings
+        for variant, encs in (('two', ('utf-8', 'iso-8859-5')), ('three', ('utf-8', 'iso-8859-1', 'shift_jis')), ('same', ('utf-8', 'utf-8'))):
+            heads = sum(12 for e in encs if e != 'iso-8859-1') if variant != 'same' else 12
+            nseg = len(encs) if variant != 'same' else 1
+            room = T.data_bits(v, lvl) - heads - nseg * (4 + T.cci_bits('byte', v))
+            total = room // 8
+            for d in (-1, 0, 1, 2):
+                n = total + d
+                if n < len(encs):
+                    continue
+                for req in (None, v):
+                    multi_eci(v, lvl, encs, n, req, acc, want)
+        for n in range(max(1, nmax - 1), nmax + 3):
+            for enc, nonlatin in (('iso-8859-1', False), ('utf-8', True), ('iso-8859-1', False), ('utf-8', True)):
+                kw = {'mask': 0, 'error': lvl, 'eci': True, 'encoding': enc, 'mode': 'byte'}
+                evaluate(acc, ('oneenc', n, kw), 'a' * n, [('byte', n, nonlatin)], kw, decode=True, exp_bytes=b'a' * n, want=want)
+    elif kind == 'oneenc':
+        _, n, kw = case
+        nonlatin = kw.get('encoding') != 'iso-8859-1'
+        evaluate(acc, case, 'a' * n, [('byte', n, nonlatin)], dict(kw), decode=True, exp_bytes=b'a' * n, want=want)
+    elif kind == 'multieci':
+        _, v, lvl, encs, n, req = case
+        multi_eci(v, lvl, tuple(encs), n, req, acc, want)
     elif kind == 'one':
         _, mode, n, kw = case
         content, parts, eb = content_for(mode, n)
@@ -228,6 +251,27 @@ def run_case(case, acc, want='both'):
         evaluate(acc, case, 'a' * n, [('byte', n, True)], dict(kw), decode=True, exp_bytes=b'a' * n, want=want)
     else:
         raise ValueError(kind)
+
+
+def multi_eci(v, lvl, encs, n, req, acc, want):
+    """n ASCII bytes spread over len(encs) byte parts, each announced in its own encoding, eci=True"""
+    k = len(encs)
+    sizes = [n // k + (1 if i < n % k else 0) for i in range(k)]
+    content = [(chr(0x61 + i) * sz, 4, enc) for i, (sz, enc) in enumerate(zip(sizes, encs))]
+    if len(set(encs)) == 1:
+        parts = [('byte', n, True)]                     # same mode and encoding: one segment, one header
+    else:
+        parts = [('byte', sz, enc != 'iso-8859-1') for sz, enc in zip(sizes, encs)]
+    kw = {'mask': 0, 'error': lvl, 'eci': True}
+    if req is not None:
+        kw['version'] = req
+    qr = evaluate(acc, ('multieci', v, lvl, list(encs), n, req), content, parts, kw, single=False, decode=True,
+                  exp_bytes=''.join(c[0] for c in content).encode(), want=want)
+    if qr is not None and want in ('c04', 'both'):
+        rep = C.read(qr)
+        exp_parts = [(c[0].encode(), c[2]) for c in content]
+        for fam, msg in C.judge_payload(rep, exp_parts, True):
+            acc.violation('eci/' + fam, msg, ('multieci', v, lvl, list(encs), n, req))
 
 
 def alt(ver, lvl, k, acc, want):
